@@ -330,6 +330,32 @@ macro_rules! ef_cursor_skeleton {
         }
     };
 }
+/// Same skeleton, narrow window around the second select sample (element 256): from the
+/// fresh cursor, `seek(t)` for every t in 250..=262, then one `advance_one`.
+#[kani::proof]
+#[kani::stub(alloc::vec::Vec::push, crate::stubs::push_no_grow)]
+#[kani::unwind(9)]
+#[kani::stub(succinctly::util::broadword::select_in_word, select_in_word_contract)]
+#[kani::stub(std_detect::detect::__is_feature_detected::avx2, yes)]
+#[kani::stub(core::arch::x86_64::_mm256_shuffle_epi8, models::mm256_shuffle_epi8)]
+#[kani::stub(core::arch::x86_64::_mm256_sad_epu8, models::mm256_sad_epu8)]
+fn c03_cursor_skeleton300_sample_window() {
+    let v = skeleton300();
+    let ef = EliasFano::build(&v);
+    let mut c = ef.cursor();
+    let t: usize = kani::any();
+    kani::assume(t >= 250 && t <= 262);
+    let got = c.seek(t);
+    assert!(got == Some(v[t]));
+    assert!(c.index() == t);
+    assert!(c.verif_state() == ef.cursor_from(t).verif_state());
+    let nxt = c.advance_one();
+    assert!(nxt == Some(v[t + 1]));
+    assert!(c.index() == t + 1);
+    kani::cover!(t == 256);
+    kani::cover!(t == 255);
+    core::mem::forget(ef);
+}
 ef_cursor_skeleton!(c03_cursor_skeleton300_seek, 3, 301);
 ef_cursor_skeleton!(c03_cursor_skeleton300_adv1, 1, 0);
 ef_cursor_skeleton!(c03_cursor_skeleton300_advby, 2, 70);
